@@ -576,3 +576,17 @@ Proof.
 Qed.
 Lemma no_trap_delta_shift r o c : delta_shift r o c <> None.
 Proof. discriminate. Qed.
+
+Lemma no_trap_delta_apply_scalar d sc : i32 sc -> delta_apply_scalar d sc <> None.
+Proof.
+  intros H. unfold delta_apply_scalar. fold (m_mul (fixed_from_i32 d) sc).
+  rewrite no_trap_mul by (try apply fixed_from_i32_range; assumption). discriminate.
+Qed.
+Lemma no_trap_cmap12_one_group cp s e g : cmap12_one_group cp s e g <> None.
+Proof.
+  unfold cmap12_one_group, addu64. rewrite chk_u64_some by lia. cbn [obind].
+  destruct (cp <? s); [discriminate|]. destruct (e <? cp); [|discriminate].
+  rewrite chk_u64_some by (change ((0 + 1) / 2) with 0; lia). cbn [obind]. discriminate.
+Qed.
+Lemma no_trap_hmtx_ix n m gid : hmtx_advance_ix n gid <> None /\ hmtx_lsb_ix n m gid <> None.
+Proof. split; discriminate. Qed.
